@@ -17,30 +17,30 @@ NCPU = min(16, os.cpu_count() or 4)
 # ----------------------------------------------------------------------------------------------- configuration
 # runs are (variant -> number of runs) for quick; thorough is time-boxed per variant (seconds of wall clock over all workers)
 PROPS = {
-    "C04": dict(engine="simA", level="exploration", quick={"plain": 30000, "asan": 4000, "plainuc": 4000}, thorough={"plain": 200, "asan": 140, "plainuc": 60},
+    "C04": dict(engine="simA", level="exploration", quick={"plain": 30000, "asan": 4000, "plainuc": 4000, "plainrel": 4000}, thorough={"plain": 200, "asan": 140, "plainuc": 60, "plainrel": 60},
                 rule="one run = one seeded history (5-80 operations) over a pool of ST::string objects and the buffers, vectors and streams their "
                      "operations return; distinct = distinct history signatures (hash of the sequence of operation kind, overload, operand storage "
                      "classes and outcome); non-trivial = the history contains a result-equals-source or self-referential call AND later mutates "
                      "the source of a derived object or destroys a derived object before its source"),
-    "C05": dict(engine="simA", level="exploration", quick={"plain": 40000, "asan": 6000, "plainuc": 4000}, thorough={"plain": 200, "asan": 140, "plainuc": 60},
+    "C05": dict(engine="simA", level="exploration", quick={"plain": 40000, "asan": 6000, "plainuc": 4000, "plainrel": 4000}, thorough={"plain": 200, "asan": 140, "plainuc": 60, "plainrel": 60},
                 rule="one run = one seeded history (5-80 operations) over pools of ST::buffer<char|wchar_t|char16_t|char32_t>; distinct = distinct "
                      "history signatures (operation kind, element type, operand storage classes, outcome); non-trivial = the history crosses the "
                      "in-object limit in some assignment/allocate or touches a moved-from object"),
-    "C16": dict(engine="simA", level="exploration", quick={"plain": 24000, "asan": 3000, "plainuc": 4000}, thorough={"plain": 200, "asan": 140, "plainuc": 60},
+    "C16": dict(engine="simA", level="exploration", quick={"plain": 24000, "asan": 3000, "plainuc": 4000, "plainrel": 4000}, thorough={"plain": 200, "asan": 140, "plainuc": 60, "plainrel": 60},
                 rule="one run = one seeded history (5-80 operations) over a pool of ST::string_stream objects; distinct = distinct history "
                      "signatures (operation kind, form, storage mode, size bucket, outcome); non-trivial = some append made a stream grow "
                      "(in-object to heap or a later doubling) or a moved-from stream was used"),
-    "C18": dict(engine="simA", level="exploration", quick={"plain": 30000, "asan": 4000, "plainuc": 4000}, thorough={"plain": 200, "asan": 140, "plainuc": 60},
+    "C18": dict(engine="simA", level="exploration", quick={"plain": 30000, "asan": 4000, "plainuc": 4000, "plainrel": 4000}, thorough={"plain": 200, "asan": 140, "plainuc": 60, "plainrel": 60},
                 rule="one run = one seeded history in which data-corruption faults are attached to operations that take text, encoded data or a "
                      "format string; distinct = distinct history signatures; non-trivial = at least one fault made the library throw while the "
                      "target or an rvalue argument was in heap storage"),
-    "C19": dict(engine="simA", level="fault_enumeration", quick={"plain": 20000, "asan": 3000, "plainuc": 4000}, thorough={"plain": 200, "asan": 140, "plainuc": 60},
+    "C19": dict(engine="simA", level="fault_enumeration", quick={"plain": 20000, "asan": 3000, "plainuc": 4000, "plainrel": 4000}, thorough={"plain": 200, "asan": 140, "plainuc": 60, "plainrel": 60},
                 rule="(a) enumeration, run to completion: every cell (allocating operation kind x overload x element type x storage class of "
                      "every operand) is executed once to count the k allocations library code attempts inside the operation and then k more times "
                      "with allocation i = 1..k throwing; `exhaustive` refers to this finite space; (b) seeded histories with allocation faults "
                      "attached to operations at a seeded rate. evaluations = executions of (a) + runs of (b); distinct_nontrivial = distinct "
                      "(cell, failing allocation index) pairs whose fault actually fired plus distinct signatures of histories in which a fault fired"),
-    "C17": dict(engine="simC", level="exploration", quick={"plain": 60000, "asan": 8000, "plainuc": 4000}, thorough={"plain": 200, "asan": 140, "plainuc": 60},
+    "C17": dict(engine="simC", level="exploration", quick={"plain": 60000, "asan": 8000, "plainuc": 4000, "plainrel": 4000}, thorough={"plain": 200, "asan": 140, "plainuc": 60, "plainrel": 60},
                 rule="one run = one generated format call (format string from a grammar of accepted specifiers + 0-4 typed arguments) executed against "
                      "4-9 sink configurations (FILE* over fopencookie with seeded buffering mode/size, narrow and wide ostreams over a streambuf with seeded "
                      "put-area capacity, ostream insertion, istream extraction with seeded refill size) and compared with ST::format on the same call; "
@@ -55,7 +55,7 @@ PROPS = {
                      "distinct = distinct (thread programs, recorded switch list) pairs; non-trivial = at least one preemption was injected inside an operation"),
 }
 DET_SAMPLE = {"quick": 240, "thorough": 3000}
-FIRST_INDEX = {"asan": 10 ** 7, "sched0": 10 ** 7, "plainuc": 2 * 10 ** 7}       # disjoint index ranges: every variant explores other runs
+FIRST_INDEX = {"asan": 10 ** 7, "sched0": 10 ** 7, "plainuc": 2 * 10 ** 7, "plainrel": 3 * 10 ** 7}       # disjoint index ranges: every variant explores other runs
 ENGINE_PARTS = {
     "simB": (["all string_theory headers of /repo's working tree, compiled with g++ -fsanitize=thread instrumentation (ABI only)", "real OS threads (pthreads) with genuine per-thread stacks, TLS, errno and exception unwinding",
               "inline libstdc++ templates compiled into the instrumented TU (std::function, std::vector, std::basic_string)", "glibc / libstdc++.so internals (uninstrumented: a race located entirely inside them is not visible)"],
@@ -374,7 +374,7 @@ def enum19(binpath, workers, known):
 def check_engine_a(prop, tier, seed):
     cfg = PROPS[prop]
     t_start = time.time()
-    variants = cfg.get("variants", ["plain", "asan", "plainuc"])
+    variants = cfg.get("variants", ["plain", "asan", "plainuc", "plainrel"])
     if os.environ.get("VERIF_VARIANTS") and "variants" not in cfg:       # measuring tools only (tools/mutation_campaign.py): e.g. plain without asan
         variants = [v for v in variants if v in os.environ["VERIF_VARIANTS"].split(",")] or variants
     bins = build_all(cfg["engine"], variants)
@@ -440,7 +440,7 @@ def check_engine_a(prop, tier, seed):
     cov = {
         "evaluations": evaluations, "distinct_nontrivial": distinct, "rule": cfg["rule"],
         "samples": dump_samples(os.path.join(bins[variants[0]], cfg["engine"]), prop, seed, [0, 1]),
-        "seeds": {"verif_seed": seed, "plain_indices": "0..", "asan_and_sched0_indices": "10000000..", "plainuc_indices": "20000000..", "run_seed": "mix(VERIF_SEED, property, index)"},
+        "seeds": {"verif_seed": seed, "plain_indices": "0..", "asan_and_sched0_indices": "10000000..", "plainuc_indices": "20000000..", "plainrel_indices": "30000000..", "run_seed": "mix(VERIF_SEED, property, index)"},
         "per_variant": per_variant,
         "operations_executed": tot.get("ops", tot.get("pairs", 0)), "invariant_evaluations": tot.get("checks", tot.get("pairs", 0)),
         "simulated_time_steps": tot.get("steps", 0),
